@@ -10,7 +10,9 @@ from genlib import *
 LEAN_MODULES = ["MpirProofs.Props.C01_mulmid"]
 THEOREMS = ["Mpir.MulMid.mulmid_basecase_spec", "Mpir.MulMid.mulmid_n_spec", "Mpir.MulMid.mulmid_spec", "Mpir.MulMid.tmSpec_ok",
             "Mpir.MulMid.mp_pairs_spec", "Mpir.MulMid.mulmid_pairs_spec"]
-PINS = [("mpn/generic/mulmid_basecase.c", "mpn_mulmid_basecase"), ("mpn/generic/mulmid_n.c", "mpn_mulmid_n"),
+PINS = [("mpn/generic/toom42_mulmid.c", None), ("gmp-impl.h", "SUBC_LIMB"), ("mpn/generic/add_err1_n.c", "mpn_add_err1_n"),
+        ("mpn/generic/add_err2_n.c", "mpn_add_err2_n"), ("mpn/generic/sub_err2_n.c", "mpn_sub_err2_n"),
+        ("mpn/generic/mulmid_basecase.c", "mpn_mulmid_basecase"), ("mpn/generic/mulmid_n.c", "mpn_mulmid_n"),
         ("mpn/generic/mulmid.c", None), ("gmp-impl.h", "ADDC_LIMB")]
 TRUSTED = ["hand-written limb-level models of mpn_mulmid_basecase / mpn_mulmid_n / mpn_mulmid in lean/Mpir/Model/MulMid.lean (run against the "
            "library, all output limbs, on every check with MULMID_TOOM42_THRESHOLD of the tree)",
@@ -46,6 +48,11 @@ def gen_ops(rng, tier, ctx=None):
     # mulmid_n around the threshold
     for n in list(range(1, T + 4)) + [2 * T, 2 * T + 1] + ([4 * T, 301] if thorough else []):
         for a, b in _pairs(rng, 2 * n - 1, n): yield "mm_mulmid_n %s %s" % (a, b)
+    # toom42_mulmid directly: n = 4..40 odd and even (one level at the tree's threshold), 2T..4T+1 (recursion), all-ones / runs / uniform / sparse
+    for n in list(range(4, 41)) + [2 * T, 2 * T + 1, 2 * T + 9, 4 * T, 4 * T + 1] + ([8 * T + 3, 301] if thorough else []):
+        for a, b in _pairs(rng, 2 * n - 1, n, ("ones", "uniform", "runs", "sparse")): yield "mm_toom42 %s %s" % (a, b)
+        yield "mm_toom42 %s %s" % (vec(rand_limbs(rng, 2 * n - 1, "uniform")), vec([M] * n))
+        yield "mm_toom42 %s %s" % (vec(rand_limbs(rng, 2 * n - 1, "runs")), vec(rand_limbs(rng, n // 2, "uniform") + rand_limbs(rng, n - n // 2, "zero")))
     shapes = set()
     # small, all regions direct
     for an in range(1, 10):
